@@ -464,6 +464,14 @@ def gen_dsp(rng):
         else:
             l = parents.line("e%d" % rng.randrange(nE), "e%d" % rng.randrange(nE))
             if l: out.append(l)
+    if rng.random() < 0.3:
+        # entity id reuse: a watched entity dies by world access (nothing polls), the next spawn gets its slot with a new
+        # generation, and a despawn reactor is registered on the newcomer before the death is polled; then the newcomer dies
+        x = rng.randrange(nE); d = rng.randrange(g.ndefs)
+        out += ["top acts 1", "on p %d dsp:e%d" % (d, x), "top wdespawn e%d" % x,
+                "top acts 2", "spawn", "on %s %d dsp:e%d" % (rng.choice("pcr"), d, nE), "top poll"]
+        if rng.random() < 0.7: out += ["top acts 1", "despawn e%d" % nE]
+        nE += 1
     out.append("top frameend")
     return "\n".join(out) + "\n"
 
